@@ -1,0 +1,70 @@
+//! Verification hooks (feature `verif_hooks`, off by default).
+//!
+//! Re-exports of internal types for an external correspondence harness,
+//! per-thread counters for collector tracing work, and named schedule
+//! points. Nothing in here is compiled without the feature.
+
+pub use crate::impl_::dep::Dep;
+pub use crate::impl_::gc_node::{GcCtx, GcNode, Tracer};
+pub use crate::impl_::listener::Listener as ListenerImpl;
+pub use crate::impl_::name::NodeName;
+pub use crate::impl_::node::{IsNode, IsNodeExt, IsWeakNode, Node, NodeData, WeakNode};
+pub use crate::impl_::sodium_ctx::{SodiumCtx as SodiumCtxImpl, SodiumCtxData};
+pub use crate::impl_::stream::Stream as StreamImpl;
+pub use crate::impl_::cell::Cell as CellImpl;
+
+use std::cell::Cell;
+use std::sync::{Arc, RwLock};
+
+thread_local! {
+    static IN_GC_NODE_NEW: Cell<bool> = Cell::new(false);
+    static TRACE_CALLS: Cell<u64> = Cell::new(0);
+    static TRACE_EDGES: Cell<u64> = Cell::new(0);
+}
+
+/// Called once per `GcNode::trace` invocation.
+pub fn count_trace_call() {
+    TRACE_CALLS.with(|c| c.set(c.get() + 1));
+}
+
+/// Called once per tracer callback (one reported edge).
+pub fn count_trace_edge() {
+    TRACE_EDGES.with(|c| c.set(c.get() + 1));
+}
+
+/// (trace calls, reported edges) on this thread since the last reset.
+pub fn trace_counters() -> (u64, u64) {
+    (TRACE_CALLS.with(|c| c.get()), TRACE_EDGES.with(|c| c.get()))
+}
+
+pub fn reset_trace_counters() {
+    TRACE_CALLS.with(|c| c.set(0));
+    TRACE_EDGES.with(|c| c.set(0));
+}
+
+type SchedHook = Arc<dyn Fn(&'static str) + Send + Sync>;
+
+static SCHED_HOOK: RwLock<Option<SchedHook>> = RwLock::new(None);
+
+/// Install (or clear) the callback run at every named schedule point.
+pub fn set_sched_hook(hook: Option<SchedHook>) {
+    *SCHED_HOOK.write().unwrap() = hook;
+}
+
+/// A named schedule point: a no-op unless a hook is installed.
+pub fn sched_point(name: &'static str) {
+    let hook = SCHED_HOOK.read().unwrap().clone();
+    if let Some(hook) = hook {
+        hook(name);
+    }
+}
+
+/// Re-entrancy guard used by `GcNode::new` to register the node it builds.
+/// Returns true (and sets the flag) iff this is the outer call.
+pub fn enter_gc_node_new() -> bool {
+    IN_GC_NODE_NEW.with(|c| !c.replace(true))
+}
+
+pub fn leave_gc_node_new() {
+    IN_GC_NODE_NEW.with(|c| c.set(false));
+}
